@@ -1,0 +1,106 @@
+//go:build verif
+
+// Contracts for the typed primitive lists (list.go): At/Set of every integer width (C03, C04).
+package capnp
+
+//@ func Segment.writeUint8
+//@   props C04 C05
+//@   requires s != nil && M(addr)+1 <= M(len(s.data)) && M(len(s.data)) <= mMaxSeg()
+//@   ensures s.data[int(addr)] == val
+//@   ensures bytesUnchangedExcept(s.data, int(addr), int(addr)+1)
+
+//@ func Segment.writeUint16
+//@   props C04 C05
+//@   requires s != nil && M(addr)+2 <= M(len(s.data)) && M(len(s.data)) <= mMaxSeg()
+//@   ensures LE16(s.data, int(addr)) == val
+//@   ensures bytesUnchangedExcept(s.data, int(addr), int(addr)+2)
+
+//@ func Segment.writeUint32
+//@   props C04 C05
+//@   requires s != nil && M(addr)+4 <= M(len(s.data)) && M(len(s.data)) <= mMaxSeg()
+//@   ensures LE32(s.data, int(addr)) == val
+//@   ensures bytesUnchangedExcept(s.data, int(addr), int(addr)+4)
+
+//@ func Int8List.At -> r
+//@   props C01 C03
+//@   requires wfList(l.List)
+//@   requires idx: l.seg != nil && 0 <= i && i < int(l.length)
+//@   ensures implies(elemFits(l.List, ObjectSize{DataSize: 1}), r == int8(l.seg.data[int(elemAddr(l.List, i))]))
+//@   ensures implies(!elemFits(l.List, ObjectSize{DataSize: 1}), r == 0)
+
+//@ func Int8List.Set
+//@   props C04
+//@   requires wfList(l.List) && elemFits(l.List, ObjectSize{DataSize: 1})
+//@   requires idx: l.seg != nil && 0 <= i && i < int(l.length)
+//@   ensures l.seg.data[int(elemAddr(l.List, i))] == uint8(v)
+//@   ensures bytesUnchangedExcept(l.seg.data, int(elemAddr(l.List, i)), int(elemAddr(l.List, i))+1)
+
+//@ func Int16List.At -> r
+//@   props C01 C03
+//@   requires wfList(l.List)
+//@   requires idx: l.seg != nil && 0 <= i && i < int(l.length)
+//@   ensures implies(elemFits(l.List, ObjectSize{DataSize: 2}), r == int16(LE16(l.seg.data, int(elemAddr(l.List, i)))))
+//@   ensures implies(!elemFits(l.List, ObjectSize{DataSize: 2}), r == 0)
+
+//@ func Int16List.Set
+//@   props C04
+//@   requires wfList(l.List) && elemFits(l.List, ObjectSize{DataSize: 2})
+//@   requires idx: l.seg != nil && 0 <= i && i < int(l.length)
+//@   ensures LE16(l.seg.data, int(elemAddr(l.List, i))) == uint16(v)
+//@   ensures bytesUnchangedExcept(l.seg.data, int(elemAddr(l.List, i)), int(elemAddr(l.List, i))+2)
+
+//@ func Int32List.At -> r
+//@   props C01 C03
+//@   requires wfList(l.List)
+//@   requires idx: l.seg != nil && 0 <= i && i < int(l.length)
+//@   ensures implies(elemFits(l.List, ObjectSize{DataSize: 4}), r == int32(LE32(l.seg.data, int(elemAddr(l.List, i)))))
+//@   ensures implies(!elemFits(l.List, ObjectSize{DataSize: 4}), r == 0)
+
+//@ func Int32List.Set
+//@   props C04
+//@   requires wfList(l.List) && elemFits(l.List, ObjectSize{DataSize: 4})
+//@   requires idx: l.seg != nil && 0 <= i && i < int(l.length)
+//@   ensures LE32(l.seg.data, int(elemAddr(l.List, i))) == uint32(v)
+//@   ensures bytesUnchangedExcept(l.seg.data, int(elemAddr(l.List, i)), int(elemAddr(l.List, i))+4)
+
+//@ func Int64List.At -> r
+//@   props C01 C03
+//@   requires wfList(l.List)
+//@   requires idx: l.seg != nil && 0 <= i && i < int(l.length)
+//@   ensures implies(elemFits(l.List, ObjectSize{DataSize: 8}), r == int64(LE64(l.seg.data, int(elemAddr(l.List, i)))))
+//@   ensures implies(!elemFits(l.List, ObjectSize{DataSize: 8}), r == 0)
+
+//@ func Int64List.Set
+//@   props C04
+//@   requires wfList(l.List) && elemFits(l.List, ObjectSize{DataSize: 8})
+//@   requires idx: l.seg != nil && 0 <= i && i < int(l.length)
+//@   ensures LE64(l.seg.data, int(elemAddr(l.List, i))) == uint64(v)
+//@   ensures bytesUnchangedExcept(l.seg.data, int(elemAddr(l.List, i)), int(elemAddr(l.List, i))+8)
+
+//@ func UInt8List.Set
+//@   props C04
+//@   requires wfList(l.List) && elemFits(l.List, ObjectSize{DataSize: 1})
+//@   requires idx: l.seg != nil && 0 <= i && i < int(l.length)
+//@   ensures l.seg.data[int(elemAddr(l.List, i))] == v
+//@   ensures bytesUnchangedExcept(l.seg.data, int(elemAddr(l.List, i)), int(elemAddr(l.List, i))+1)
+
+//@ func UInt16List.Set
+//@   props C04
+//@   requires wfList(l.List) && elemFits(l.List, ObjectSize{DataSize: 2})
+//@   requires idx: l.seg != nil && 0 <= i && i < int(l.length)
+//@   ensures LE16(l.seg.data, int(elemAddr(l.List, i))) == v
+//@   ensures bytesUnchangedExcept(l.seg.data, int(elemAddr(l.List, i)), int(elemAddr(l.List, i))+2)
+
+//@ func UInt32List.Set
+//@   props C04
+//@   requires wfList(l.List) && elemFits(l.List, ObjectSize{DataSize: 4})
+//@   requires idx: l.seg != nil && 0 <= i && i < int(l.length)
+//@   ensures LE32(l.seg.data, int(elemAddr(l.List, i))) == v
+//@   ensures bytesUnchangedExcept(l.seg.data, int(elemAddr(l.List, i)), int(elemAddr(l.List, i))+4)
+
+//@ func UInt64List.Set
+//@   props C04
+//@   requires wfList(l.List) && elemFits(l.List, ObjectSize{DataSize: 8})
+//@   requires idx: l.seg != nil && 0 <= i && i < int(l.length)
+//@   ensures LE64(l.seg.data, int(elemAddr(l.List, i))) == v
+//@   ensures bytesUnchangedExcept(l.seg.data, int(elemAddr(l.List, i)), int(elemAddr(l.List, i))+8)
